@@ -26,6 +26,9 @@ def handle (p : List Sexp) : String :=
     match args.mapM parseVal with
     | some vs =>
       let i := impl name vs
+      -- `region` no longer contains the two repaired crash classes (locate_empty_str_pos_panics,
+      -- substring_len_overflow_panics; `Gms.C34.locate_never_crashes`, `substring_spec`): a LOCATE /
+      -- SUBSTRING call on which the code panics again disagrees with `i` under region "-" (VIOLATION)
       match region name vs with
       | none => answer (showRes i)
       | some r =>
